@@ -239,13 +239,63 @@ fn check_tree(run: &mut Run, rng: &mut Rng, tree: &Tree, profile: &Profile, know
     if dump { Some(line) } else { None }
 }
 
+/// the real Partition::from against an independent grouping: traverser nodes with children, keyed
+/// by (first 16 edges of the path from the root, card bucket of (actor's hole, board), legal
+/// abstract menu of the current betting round) — none of it read from node.bucket()
+fn check_partition(run: &mut Run, tree: Tree, label: &str) -> Vec<Info> {
+    let encoder = Encoder::default();
+    let walker = tree.walker();
+    let mut want: BTreeMap<(Vec<Edge>, u64, Vec<Edge>), Vec<usize>> = BTreeMap::new();
+    for (i, node) in tree.all().iter().enumerate() {
+        if node.player() == walker && !node.children().is_empty() {
+            let hist: Vec<Edge> = node.history().into_iter().copied().collect();
+            let n_aggro = hist.iter().rev().take_while(|e| !matches!(e, Edge::Draw)).take(MAX_DEPTH_SUBGAME).filter(|e| is_aggro(e)).count();
+            let key = (
+                hist.iter().take(MAX_DEPTH_SUBGAME).copied().collect::<Vec<_>>(),
+                u64::from(encoder.abstraction(node.data().game())),
+                node.data().game().choices(n_aggro),
+            );
+            want.entry(key).or_default().push(i);
+        }
+    }
+    let multi = want.values().filter(|g| g.len() > 1).count();
+    if multi > 0 {
+        run.count_n("multi-node-information-sets", multi as u64);
+    }
+    let infos: Vec<Info> = Partition::from(tree).into();
+    run.spec_checked += 1;
+    let mut got: Vec<Vec<usize>> = infos.iter().map(|i| { let mut r: Vec<usize> = i.roots().iter().map(|x| x.index().index()).collect(); r.sort(); r }).collect();
+    got.sort();
+    let mut exp: Vec<Vec<usize>> = want.values().cloned().collect();
+    exp.sort();
+    if got != exp {
+        let bad = exp.iter().find(|g| !got.contains(g)).cloned().or(got.iter().find(|g| !exp.contains(g)).cloned()).unwrap_or_default();
+        let near: Vec<Vec<usize>> = got.iter().filter(|g| g.iter().any(|x| bad.contains(x))).cloned().collect();
+        let keys: Vec<String> = want.iter().filter(|(_, g)| g.iter().any(|x| bad.contains(x) || near.iter().any(|n| n.contains(x)))).map(|(k, g)| format!("{g:?}: history {:?} menu {:?}", k.0, k.2)).collect();
+        run.fail("information-set-not-the-nodes-agreeing-on-history-menu-bucket", &format!("{label}: {}", keys.join(" | ")), &format!("{bad:?}"), &format!("{near:?}"));
+    }
+    infos
+}
+
 /// replica of Blueprint::tree / Blueprint::sample on the real tree primitives (Tree::plant / fork,
 /// Node::realize, Encoder::branches, Profile::witness / explore_all / explore_any), with the
 /// opponent's branch chosen by a script instead of explore_one, so that long hands (lines deeper
 /// than the 16-edge window) are built deliberately.
 fn directed_tree(profile: &mut Profile, encoder: &Encoder, style: u64, rng: &mut Rng) -> Tree {
-    fn pick(branches: &Vec<robopoker::mccfr::tree::Branch>, style: u64, depth: usize, rng: &mut Rng) -> usize {
+    fn pick(node: &robopoker::mccfr::node::Node, branches: &Vec<robopoker::mccfr::tree::Branch>, style: u64, depth: usize, rng: &mut Rng) -> usize {
         let edges: Vec<Edge> = branches.iter().map(|b| *b.edge()).collect();
+        if style == 9 {
+            // small raises before the turn, check the turn, jam the river: the traverser's different
+            // river lines then end in nodes deeper than 16 edges that share a bucket
+            use robopoker::cards::street::Street;
+            let passive = edges.iter().position(|e| matches!(e, Edge::Check)).or(edges.iter().position(|e| matches!(e, Edge::Call)));
+            let choice = match node.data().game().street() {
+                Street::Pref | Street::Flop => edges.iter().position(|e| matches!(e, Edge::Raise(_))).or(passive),
+                Street::Turn => passive,
+                Street::Rive => edges.iter().position(|e| matches!(e, Edge::Shove)),
+            };
+            return choice.unwrap_or(0);
+        }
         let raises: Vec<usize> = (0..edges.len()).filter(|&i| matches!(edges[i], Edge::Raise(_))).collect();
         let passive = edges.iter().position(|e| matches!(e, Edge::Call)).or(edges.iter().position(|e| matches!(e, Edge::Check)));
         let smallest = raises.iter().copied().min_by(|&a, &b| {
@@ -274,7 +324,7 @@ fn directed_tree(profile: &mut Profile, encoder: &Encoder, style: u64, rng: &mut
             (_, p) if p == Player::chance() => profile.explore_any(branches, node),
             (_, p) if p != walker => {
                 profile.witness(node, &branches);
-                let i = pick(&branches, style, depth, rng);
+                let i = pick(node, &branches, style, depth, rng);
                 vec![branches.remove(i)]
             }
             _ => {
@@ -430,7 +480,7 @@ fn main() {
                     freq_done += 1;
                 }
             }
-            let infos: Vec<Info> = Partition::from(tree).into();
+            let infos: Vec<Info> = check_partition(&mut run, tree, &label);
             for info in infos {
                 cfs.push(profile.read().unwrap().counterfactual(info));
             }
@@ -445,7 +495,7 @@ fn main() {
     }
     // ---- directed long hands: deep decision nodes (> 16 edges) are built on purpose
     let base_epochs = { profile.read().unwrap().epochs() };
-    for style in 0..directed_styles {
+    for style in [9u64, 0, 2, 1, 3].into_iter().take(directed_styles as usize) {
         for parity in 0..2usize {
             let tree = {
                 let mut p = profile.write().unwrap();
@@ -460,6 +510,7 @@ fn main() {
                 run.count("directed-tree-dumped");
             }
             run.count(&format!("directed-tree-nodes<={}", match n { 0..=999 => 999, 1000..=4999 => 4999, 5000..=19999 => 19999, _ => 999999 }));
+            check_partition(&mut run, tree, &label);
         }
     }
     // ---- every training phase: Discount / Explore / Prune boundaries, both traversers; in the
